@@ -5,7 +5,8 @@ import OxiVerif.Spec.Syntax
 Mirrors (line by line, quirks included):
 
 * `writer/pdf_writer/mod.rs`
-  * `escape_pdf_string_bytes`                         → `escapePdfString`
+  * `escape_pdf_string_bytes`                         → `escapePdfString` (before the CR repair:
+    `escapePdfStringRawCR`)
   * `escape_pdf_name_bytes` (commit 16fac722)         → `escapeName` (`nameRegular`)
   * `PdfWriter::write_object_value`                   → `ser`      (direct objects)
   * `PdfWriter::write_object_value_to_buffer`         → `serBuf`   (objects inside object streams;
@@ -41,13 +42,28 @@ def showInt : Int → List Nat
 
 /-! ## `escape_pdf_string_bytes` -/
 
+/-- `\\`, `\(`, `\)` and (since the CR repair) `\r` for a carriage return -/
 def escapePdfString : List Nat → List Nat
   | [] => []
   | b :: r =>
     if b == 92 then 92 :: 92 :: escapePdfString r
     else if b == 40 then 92 :: 40 :: escapePdfString r
     else if b == 41 then 92 :: 41 :: escapePdfString r
+    else if b == 13 then 92 :: 114 :: escapePdfString r
     else b :: escapePdfString r
+
+/-- `escape_pdf_string_bytes` before the CR repair: a carriage return was left raw (the
+    regression the C09-F2 witnesses are stated on) -/
+def escapePdfStringRawCR : List Nat → List Nat
+  | [] => []
+  | b :: r =>
+    if b == 92 then 92 :: 92 :: escapePdfStringRawCR r
+    else if b == 40 then 92 :: 40 :: escapePdfStringRawCR r
+    else if b == 41 then 92 :: 41 :: escapePdfStringRawCR r
+    else b :: escapePdfStringRawCR r
+
+/-- the literal string `write_object_value` wrote before the CR repair -/
+def serStrRawCR (s : List Nat) : List Nat := 40 :: (escapePdfStringRawCR s ++ [41])
 
 /-! ## reals: `format!("{f:.6}").trim_end_matches('0').trim_end_matches('.')` -/
 
